@@ -252,7 +252,7 @@ fn obs(arena: &sync::Arena) -> Value {
 }
 
 /// Execute one program op on behalf of thread `tid` (tid == NONE: setup, uncontrolled).
-fn exec_op(arena: &'static sync::Arena, tid: usize, op: &Value, next_id: &mut u32) {
+fn exec_op(arena: &'static sync::Arena, tid: usize, op: &Value, next_id: &mut u32, clones: &mut Vec<sync::Arena>, own: bool) {
   let t: i64 = if tid == NONE { -1 } else { tid as i64 };
   let k = op["k"].as_str().unwrap();
   {
@@ -360,6 +360,23 @@ fn exec_op(arena: &'static sync::Arena, tid: usize, op: &Value, next_id: &mut u3
       drop(a2);
       push(json!({"ev": "ret", "t": t, "op": op, "res": {"k": "ok"}}), true);
     }
+    "clone" => {
+      clones.push(arena.clone());
+      push(json!({"ev": "ret", "t": t, "op": op, "res": {"k": "ok"}}), true);
+    }
+    "drop_clone" => {
+      if let Some(c) = clones.pop() {
+        drop(c);
+      }
+      push(json!({"ev": "ret", "t": t, "op": op, "res": {"k": "ok"}}), true);
+    }
+    "drop_arena" => {
+      // the thread gives up its own arena value (own_clones mode); the last one unmounts the memory
+      if own {
+        unsafe { drop(Box::from_raw(arena as *const _ as *mut sync::Arena)) };
+      }
+      push(json!({"ev": "ret", "t": t, "op": op, "res": {"k": "ok", "own": own}}), true);
+    }
     _ => panic!("unknown conc op {k}"),
   }
   if tid != NONE {
@@ -410,9 +427,22 @@ fn run_driver(d: &Value, out: &mut impl Write, workdir: &str) -> bool {
   let _ = take_api();
   // ---- setup (uncontrolled, sequential)
   let mut next_id = 1u32;
+  let mut no_clones: Vec<sync::Arena> = Vec::new();
   for op in d["setup"].as_array().map(|v| v.as_slice()).unwrap_or(&[]) {
-    exec_op(arena, NONE, op, &mut next_id);
+    exec_op(arena, NONE, op, &mut next_id, &mut no_clones, false);
   }
+  // own_clones: every thread works through its own arena value and drops it itself; the main value goes away
+  // before the threads start, so the last thread to drop unmounts the memory (C12 / C13 teardown)
+  let own_clones = cfg["own_clones"].as_bool().unwrap_or(false);
+  let thread_arenas: Vec<usize> = (0..nthreads)
+    .map(|_| {
+      if own_clones {
+        Box::into_raw(Box::new(arena.clone())) as usize
+      } else {
+        arena as *const _ as usize
+      }
+    })
+    .collect();
   let setup_events = std::mem::take(&mut ctl().m.lock().unwrap().events);
   writeln!(
     out,
@@ -422,6 +452,15 @@ fn run_driver(d: &Value, out: &mut impl Write, workdir: &str) -> bool {
   )
   .unwrap();
   out.flush().unwrap();
+  if own_clones {
+    // setup handles must not outlive the main arena value: leak them (detached)
+    let hs = std::mem::take(&mut ctl().m.lock().unwrap().handles);
+    for (_, mut h) in hs {
+      h.0.detach_h();
+      drop(h);
+    }
+    unsafe { drop(Box::from_raw(arena as *const _ as *mut sync::Arena)) };
+  }
   // ---- threads: started one at a time, each runs up to its first scheduling point
   let mut joins = Vec::new();
   for t in 0..nthreads {
@@ -431,11 +470,17 @@ fn run_driver(d: &Value, out: &mut impl Write, workdir: &str) -> bool {
       let mut st = c.m.lock().unwrap();
       st.running = Some(t);
     }
+    let my_arena: &'static sync::Arena = unsafe { &*(thread_arenas[t] as *const sync::Arena) };
     let j = std::thread::spawn(move || {
       TID.with(|x| x.set(t));
       let mut nid = (t as u32 + 1) * 50 + 1;
+      let mut clones: Vec<sync::Arena> = Vec::new();
       for op in &prog {
-        exec_op(arena, t, op, &mut nid);
+        exec_op(my_arena, t, op, &mut nid, &mut clones, own_clones);
+      }
+      // arena values a program forgot are leaked (never dropped behind the scheduler's back)
+      for c in clones {
+        std::mem::forget(c);
       }
       TID.with(|x| x.set(NONE));
       let c = ctl();
@@ -489,7 +534,11 @@ fn run_driver(d: &Value, out: &mut impl Write, workdir: &str) -> bool {
         .map(|t| json!({"t": t, "op": st.cur_op[t], "pending": st.parked[t]}))
         .collect();
       drop(st);
-      writeln!(out, "{}", end_event(arena, "stuck", json!({"kind": kind, "threads": th}))).unwrap();
+      if own_clones {
+        writeln!(out, "{}", json!({"ev": "stuck", "gone": true, "live": [], "obs": {"fl": [], "fltrunc": false}, "mem": [], "x": {"kind": kind, "threads": th}})).unwrap();
+      } else {
+        writeln!(out, "{}", end_event(arena, "stuck", json!({"kind": kind, "threads": th}))).unwrap();
+      }
       out.flush().unwrap();
       return false;
     }
@@ -537,6 +586,16 @@ fn run_driver(d: &Value, out: &mut impl Write, workdir: &str) -> bool {
   }
   for j in joins {
     let _ = j.join();
+  }
+  if own_clones {
+    // the memory is gone (or leaked, if a program kept its arena): nothing left to observe
+    writeln!(out, "{}", json!({"ev": "end", "gone": true, "live": [], "x": {}})).unwrap();
+    let _ = take_api();
+    let _ = std::mem::take(&mut ctl().m.lock().unwrap().handles).into_iter().map(|(_, h)| std::mem::forget(h)).count();
+    if let Some(p) = file {
+      let _ = std::fs::remove_file(p);
+    }
+    return true;
   }
   writeln!(out, "{}", end_event(arena, "end", json!({}))).unwrap();
   // tear down: leak handles (detached) so that nothing else touches the arena
